@@ -61,7 +61,27 @@ def op_lexer(task):
         r = lex(text)
         if r["exc"]:
             seen.setdefault(r["exc"] + ":special", text)
-    return {"cases": cases, "exceptions": seen}
+    # every proper prefix of one lexeme of every kind (what an editor sees while it is typed),
+    # alone, after other tokens, and with each alternative spelling of its special characters
+    lexemes = ['"abc"', '"a\\n\\t\\\\b"', '"\\x41z"', '"\\x4"', '"\\101"', '"\\7"', '"\\q"', 'L"w"', 'u8"s"', "'a'", "'\\x7f'",
+               "'\\0'", "'\\''", "L'a'", "''", "/* c */", "/* a\n b */", "// line\n", "//\\\nx\n", "0x1F", "0x1.8p+3f",
+               "0b101", "017", "1.5e-3L", "12ull", ".5f", "1e", "0x", "1..2", "abc_1", "__attribute__", ">>=", "->", "...",
+               "??=", "??/\nx", "<%", "%:%:", "#include <a.h>\n", "a\\\nb", "@", "\\"]
+    pre = ["", "x = ", "\t"]
+    fam = 0
+    for lx in lexemes:
+        variants = {lx, lx.replace("\\", "??/"), lx.replace("#", "%:").replace("[", "<:")}
+        for v in variants:
+            for k in range(1, len(v) + 1):
+                for p in pre:
+                    for tail in ("", "\n") if k == len(v) else ("",):
+                        text = p + v[:k] + tail
+                        cases += 1
+                        fam += 1
+                        r = lex(text)
+                        if r["exc"]:
+                            seen.setdefault(r["exc"] + ":prefix", text)
+    return {"cases": cases, "exceptions": seen, "prefix_family": fam}
 
 
 def op_prefixes(task):
